@@ -428,6 +428,121 @@ func checkC12(c *Check) {
 		})
 		c.Hold("R5", "Queue.dispatch:recover", r.FI.Decl.Pos(), found && okRec, "the panic handler of a delivery attempt can remove spool files (a crashing attempt must leave the message for inspection/restart)")
 	}
+	// R8: the parallelism semaphore is released only by a goroutine that acquired it: the acquire precedes the
+	// registration of the deferred release on every path
+	c.Rule("R8", "attempt goroutine: the delivery semaphore is acquired before the deferred release is registered (no exit can release a slot that was not taken)", 1)
+	if r := c.In(queueRel, "Queue", "dispatch"); r != nil {
+		okAll, n := true, 0
+		why := ""
+		ast.Inspect(r.FI.Decl.Body, func(x ast.Node) bool {
+			g, ok := x.(*ast.GoStmt)
+			if !ok {
+				return true
+			}
+			fl, ok := g.Call.Fun.(*ast.FuncLit)
+			if !ok {
+				return true
+			}
+			lf := p.FlowOf(info, fl.Body, "dispatch$attempt")
+			semField := func(e ast.Expr) bool { fv := fieldOf(info, e); return fv != nil && fv.Name() == "deliverySemaphore" }
+			var acquires, defers []Pt
+			for _, pt := range lf.Points() {
+				nd := pt.Node()
+				if d, isD := nd.(*ast.DeferStmt); isD {
+					rel := false
+					ast.Inspect(d, func(y ast.Node) bool {
+						if u, ok := y.(*ast.UnaryExpr); ok && u.Op == token.ARROW && semField(u.X) {
+							rel = true
+						}
+						return true
+					})
+					if rel {
+						defers = append(defers, pt)
+					}
+					continue
+				}
+				inspectNoLit(nd, func(y ast.Node) bool {
+					if s, ok := y.(*ast.SendStmt); ok && semField(s.Chan) {
+						acquires = append(acquires, pt)
+					}
+					return true
+				})
+			}
+			if len(defers) == 0 && len(acquires) == 0 {
+				return true
+			}
+			n++
+			if len(acquires) == 0 || len(defers) == 0 {
+				okAll, why = false, "the semaphore is not acquired and released by the same goroutine"
+				return true
+			}
+			if path, f := lf.Reach(Query{From: []Pt{lf.Entry()}, Inclusive: true, Target: isPt(defers), Avoid: isPt(acquires)}); f {
+				okAll, why = false, "the deferred release is registered before the semaphore was acquired: an early return (e.g. the message cannot be read from the spool) releases a slot that was never taken – the goroutine blocks forever in its defer, never calls Done, and Queue.Close hangs: "+lf.Describe(path)
+			}
+			// and no exit between acquire and the defer registration
+			if path, f := lf.Reach(Query{From: acquires, Target: lf.IsExitPt, Avoid: isPt(defers)}); f && okAll {
+				okAll, why = false, "the goroutine can exit after acquiring the semaphore without a registered release: "+lf.Describe(path)
+			}
+			return true
+		})
+		c.Hold("R8", "Queue.dispatch:semaphore-pairing", r.FI.Decl.Pos(), okAll && n == 1, why)
+	}
+	// R3b: what Add touches after its stopped check is never invalidated by Close
+	c.Rule("R3b", "Close does not reassign or close anything that a concurrent Add, already past its stopped check, still uses (other than the channel Add selects on for shutdown)", 1)
+	{
+		var addFI, closeFI *FuncInfo
+		for _, fi := range twFuncs {
+			if fi.Obj.Name() == "Add" {
+				addFI = fi
+			}
+			if fi.Obj.Name() == "Close" {
+				closeFI = fi
+			}
+		}
+		msg := ""
+		if addFI == nil || closeFI == nil {
+			msg = "undecided: Add/Close not found"
+		} else {
+			used := map[*types.Var]bool{}
+			selectRecv := map[*types.Var]bool{}
+			ast.Inspect(addFI.Decl.Body, func(x ast.Node) bool {
+				if s, ok := x.(*ast.SelectorExpr); ok {
+					if fv := fieldOf(info, s); fv != nil {
+						used[fv] = true
+					}
+				}
+				if cc, ok := x.(*ast.CommClause); ok && cc.Comm != nil {
+					ast.Inspect(cc.Comm, func(y ast.Node) bool {
+						if u, ok := y.(*ast.UnaryExpr); ok && u.Op == token.ARROW {
+							if fv := fieldOf(info, u.X); fv != nil {
+								selectRecv[fv] = true
+							}
+						}
+						return true
+					})
+				}
+				return true
+			})
+			ast.Inspect(closeFI.Decl.Body, func(x ast.Node) bool {
+				switch st := x.(type) {
+				case *ast.AssignStmt:
+					for _, l := range st.Lhs {
+						if fv := fieldOf(info, l); fv != nil && used[fv] {
+							msg = "Close assigns " + fv.Name() + ", which a concurrent Add that already passed the stopped check still uses (nil dereference / send on nil channel in a delivery goroutine: the message is marked broken)"
+						}
+					}
+				case *ast.CallExpr:
+					if id, ok := st.Fun.(*ast.Ident); ok && id.Name == "close" && len(st.Args) == 1 {
+						if fv := fieldOf(info, st.Args[0]); fv != nil && used[fv] && !selectRecv[fv] {
+							msg = "Close closes channel " + fv.Name() + " which Add sends on"
+						}
+					}
+				}
+				return true
+			})
+		}
+		c.Hold("R3b", "TimeWheel.Close-vs-Add", token.NoPos, msg == "", msg)
+	}
 	// R7: Add publishes the entry before waking the scheduler
 	c.Rule("R7", "Add inserts the entry into the list before it notifies the scheduler", 1)
 	if r := c.need("R7", queueRel, "TimeWheel", "Add"); r != nil {
